@@ -332,10 +332,12 @@ func witness(ref *refCache, ops []opSpec, res []result) (order []int, found bool
 }
 
 // runRdsOnly executes the history on the redis adapter alone; racing segments go through the fake's forced interleaving.
-func runRdsOnly(h *histSpec) (steps []obs, witnessMissing bool) {
+func runRdsOnly(e *vh.Env, h *histSpec) (steps []obs, witnessMissing bool) {
 	f, cl := newFakeRedis(getClock)
 	defer cl.Close()
 	r := cache.NewTTLRdsCache(cl, rdsPrefix, h.Dttl)
+	bys := newBystander(f, cl, h)
+	defer bys.finish(e, h)
 	var segs []segObs
 	hasPar := false
 	for _, s := range h.Segs {
@@ -384,12 +386,62 @@ func runRdsOnly(h *histSpec) (steps []obs, witnessMissing bool) {
 	return flatten(segs, orders, true), witnessMissing
 }
 
+// bystander: a second cache with its own prefix on the same redis.  It sets one key before the history and reads it
+// afterwards; whatever the cache under test does (Clear included) must not touch it.
+const byPrefix = "q:"
+
+type bystander struct {
+	c     cache.TTLCache
+	f     *fakeRedis
+	steps []obs
+}
+
+func newBystander(f *fakeRedis, cl *redis.Client, h *histSpec) *bystander {
+	b := &bystander{c: cache.NewTTLRdsCache(cl, byPrefix, h.Dttl), f: f}
+	t0 := int64(0)
+	if len(h.Segs) > 0 && len(h.Segs[0].Ops) > 0 {
+		t0 = h.Segs[0].Ops[0].Now
+	}
+	b.do(opSpec{Now: t0, Kind: "S", K: 0, V: 99, HasTTL: true, TTL: 1000000})
+	return b
+}
+func (b *bystander) do(o opSpec) {
+	setClock(o.Now)
+	b.f.take()
+	r := execOp(b.c, o)
+	b.steps = append(b.steps, obs{op: o, rds: r, cmds: coqCmdsP(b.f.take(), byPrefix)})
+}
+func (b *bystander) finish(e *vh.Env, h *histSpec) {
+	tEnd, cleared := b.steps[0].op.Now, false
+	for _, s := range h.Segs {
+		for _, o := range s.Ops {
+			if o.Now > tEnd {
+				tEnd = o.Now
+			}
+			if o.Kind == "C" {
+				cleared = true
+			}
+		}
+	}
+	b.do(opSpec{Now: tEnd, Kind: "G", K: 0})
+	lines := []string{}
+	for _, s := range b.steps {
+		lines = append(lines, fmt.Sprintf("%s -> rds %s %v", descOp(s.op), descRes(s.rds), s.cmds))
+	}
+	rp, _ := json.Marshal(h)
+	e.Emit(vh.Case{Coq: fmt.Sprintf("CRdsHist 64 %s %s", z(h.Dttl), coqRdsOnlySteps(b.steps)), Class: "rds-bystander", Nontrivial: cleared, Replay: string(rp),
+		Desc: map[string]interface{}{"backend": "redis", "history": lines,
+			"note": "second cache (prefix q:) on the same redis; between its two calls the cache under test (prefix p:) ran the history of the neighbouring case", "other_cache_cleared": cleared}})
+}
+
 // runRds executes the history on both back-ends in lock step.
-func runRds(h *histSpec) (steps []obs) {
+func runRds(e *vh.Env, h *histSpec) (steps []obs) {
 	m := cache.NewTTLMemCache(int(h.Size), h.Dttl)
 	f, cl := newFakeRedis(getClock)
 	defer cl.Close()
 	r := cache.NewTTLRdsCache(cl, rdsPrefix, h.Dttl)
+	by := newBystander(f, cl, h)
+	defer by.finish(e, h)
 	for _, s := range h.Segs {
 		for _, o := range s.Ops {
 			setClock(o.Now)
@@ -467,11 +519,11 @@ func coqRdsOnlySteps(ss []obs) string {
 	return "[" + strings.Join(out, "; ") + "]%Z"
 }
 
-func keyIndex(full string) (int, bool) {
-	if !strings.HasPrefix(full, rdsPrefix) {
+func keyIndex(full, prefix string) (int, bool) {
+	if !strings.HasPrefix(full, prefix) {
 		return 0, false
 	}
-	name := full[len(rdsPrefix):]
+	name := full[len(prefix):]
 	for i, n := range keyNames {
 		if n == name {
 			return i, true
@@ -482,10 +534,12 @@ func keyIndex(full string) (int, bool) {
 
 // coqCmds turns the recorded argument vectors into rcmd terms; anything the model cannot say becomes RBad.  The DELs
 // that follow a SCAN are put into key order (the iteration order of a key space is not an observable of the property).
-func coqCmds(raw [][]interface{}) []string {
+func coqCmds(raw [][]interface{}) []string { return coqCmdsP(raw, rdsPrefix) }
+
+func coqCmdsP(raw [][]interface{}, prefix string) []string {
 	out := make([]string, 0, len(raw))
 	for _, a := range raw {
-		out = append(out, coqCmd(a))
+		out = append(out, coqCmd(a, prefix))
 	}
 	for i, c := range out {
 		if c == "RScan" {
@@ -510,7 +564,7 @@ func coqCmds(raw [][]interface{}) []string {
 	return out
 }
 
-func coqCmd(a []interface{}) string {
+func coqCmd(a []interface{}, prefix string) string {
 	if len(a) == 0 {
 		return "RBad"
 	}
@@ -523,7 +577,7 @@ func coqCmd(a []interface{}) string {
 		if !ok {
 			return 0, false
 		}
-		return keyIndex(s)
+		return keyIndex(s, prefix)
 	}
 	switch name {
 	case "set":
@@ -598,7 +652,7 @@ func coqCmd(a []interface{}) string {
 		cur, ok := argInt(a[1])
 		w, _ := argStr(a[2])
 		p, _ := argStr(a[3])
-		if !ok || cur != 0 || w != "match" || p != rdsPrefix+"*" {
+		if !ok || cur != 0 || w != "match" || p != prefix+"*" {
 			return "RBad"
 		}
 		return "RScan"
@@ -690,7 +744,7 @@ func emitMem(e *vh.Env, h *histSpec) {
 }
 
 func emitRds(e *vh.Env, h *histSpec) {
-	steps := runRds(h)
+	steps := runRds(e, h)
 	coq := fmt.Sprintf("CRds %s %s %s", z(h.Size), z(h.Dttl), coqRdsSteps(steps))
 	lines := []string{}
 	led := map[int]int64{}
@@ -721,7 +775,7 @@ func emitRds(e *vh.Env, h *histSpec) {
 }
 
 func emitRdsHist(e *vh.Env, h *histSpec) {
-	steps, missing := runRdsOnly(h)
+	steps, missing := runRdsOnly(e, h)
 	coq := fmt.Sprintf("CRdsHist %s %s %s", z(h.Size), z(h.Dttl), coqRdsOnlySteps(steps))
 	lines := []string{}
 	led := map[int]int64{}
